@@ -75,13 +75,24 @@ def run(ctx, build, verdict, ev):
 
     lits, index = [], []
     nviol = 0
-    stats = {"sequences": 0, "steps": 0, "ops": {}, "history_free_checks": 0, "idempotence_checks": 0, "restart_checks": 0, "copy_graph_checks": 0, "isolation_checks": 0, "function_linear_engines": 0}
+    stats = {"sequences": 0, "steps": 0, "ops": {}, "history_free_checks": 0, "idempotence_checks": 0, "restart_checks": 0, "copy_graph_checks": 0, "isolation_checks": 0, "function_linear_engines": 0,
+             "engines_built_without_blocks": 0, "engines_built_with_empty_block": 0, "restarts_without_blocks": 0, "restarts_without_blocks_carrying_state": 0,
+             "restarts_with_empty_block": 0, "process_steps_with_fired_rule": 0, "stale_fuzzy_checks": 0, "stale_fuzzy_checks_disabled_output_with_old_terms": 0}
     distinct = set()
-    for seq_no in range(ctx.n(400, 10000)):
+    for seq_no in range(ctx.n(460, 11500)):
         desc = E.gen_engine(ctx.rng, profile=ctx.rng.choice(["algebraic", "algebraic", "mixed"]), activations=ACTS, weighted=True, refs=True)
         if ctx.rng.random() < 0.5:
             for o in desc["outputs"]:
                 o["lock_previous"] = False
+        # engines without rule blocks / with a block that has no rules (post-processing of the description: the random
+        # stream of gen_engine is untouched)
+        shape = ctx.rng.random()
+        if shape < 0.07:
+            desc["blocks"] = []
+            stats["engines_built_without_blocks"] += 1
+        elif shape < 0.12:
+            ctx.rng.choice(desc["blocks"])["rules"] = []
+            stats["engines_built_with_empty_block"] += 1
         with_refs = ctx.rng.random() < 0.15  # extra Function term reading other variables incl. outputs: implementation-side oracles only
         engine = E.build_engine(fl, desc)
         if with_refs:
@@ -91,6 +102,7 @@ def run(ctx, build, verdict, ev):
         if any(t["class"] in ("Linear", "Function") for o in desc["outputs"] for t in o["terms"]):
             stats["function_linear_engines"] += 1
         e0_lit = E.lit_engine(fl, desc, engine)
+        fll0 = str(engine)
         live = [engine]
         descs = [pycopy.deepcopy(desc)]
         cur = 0
@@ -98,9 +110,18 @@ def run(ctx, build, verdict, ev):
         failed = False
         tbl_all = []
         nsteps = ctx.rng.randint(3, 12)
+        forced = None
         for _ in range(nsteps):
-            kind = ctx.rng.choice(["set", "set", "process", "process", "process", "restart", "copy", "switch", "editrule", "editoutput", "editblock"])
             eng, d = live[cur], descs[cur]
+            if not eng.rule_blocks:  # nothing to edit in the blocks: the state of the outputs is assigned by hand instead
+                pool = ["set", "process", "process", "restart", "restart", "copy", "switch", "editoutput", "setstate", "setstate", "setstate"]
+            else:
+                pool = ["set", "set", "process", "process", "process", "restart", "copy", "switch", "editrule", "editoutput", "editblock"] * 3 + ["removeblocks", "droprules", "setstate", "setstate"]
+            kind = ctx.rng.choice(pool)
+            if forced is not None:
+                kind, forced = forced, None
+            if kind == "editrule" and not any(rb.rules for rb in eng.rule_blocks):
+                kind = "process"
             before = [snapshot(e) for e in live]
             stats["ops"][kind] = stats["ops"].get(kind, 0) + 1
             raised = None
@@ -111,6 +132,7 @@ def run(ctx, build, verdict, ev):
                 ops_lit.append(f"(OSet {i} {vlib.fhex(x)})")
             elif kind == "process":
                 fll_before = str(eng)
+                old_terms = [list(ov.fuzzy.terms) for ov in eng.output_variables]  # holds the objects: their ids stay theirs
                 with vlib.patch_observed():
                     vlib.RECORDER.reset()
                     try:
@@ -125,13 +147,22 @@ def run(ctx, build, verdict, ev):
                                           {"engine_fll": fll_before, "after": str(eng), "inputs": [last(iv.value) for iv in eng.input_variables]})
                     nviol += 1
                 if raised is None:
-                    nviol += check_after_process(ctx, verdict, fl, eng, d, with_refs and cur == 0, stats)
+                    nviol += check_after_process(ctx, verdict, fl, eng, d, with_refs and cur == 0, stats, old_terms, fll0, list(ops_lit))
                     if any(bool(np.asarray(r.triggered).any()) for rb in eng.rule_blocks for r in rb.rules):
                         distinct.add((seq_no, len(ops_lit)))
+                        stats["process_steps_with_fired_rule"] += 1
             elif kind == "restart":
+                carrying = any(not math.isnan(last(ov.value)) or not math.isnan(last(ov.previous_value)) or ov.fuzzy.terms for ov in eng.output_variables)
+                if not eng.rule_blocks:
+                    stats["restarts_without_blocks"] += 1
+                    stats["restarts_without_blocks_carrying_state"] += carrying
+                    if carrying:
+                        distinct.add((seq_no, len(ops_lit) + 1))
+                elif any(not rb.rules for rb in eng.rule_blocks):
+                    stats["restarts_with_empty_block"] += 1
                 eng.restart()
                 ops_lit.append("ORestart")
-                nviol += check_after_restart(ctx, verdict, fl, eng, d, with_refs and cur == 0, stats)
+                nviol += check_after_restart(ctx, verdict, fl, eng, d, with_refs and cur == 0, stats, fll0, list(ops_lit))
             elif kind == "copy":
                 c = eng.copy()
                 live.append(c)
@@ -142,8 +173,33 @@ def run(ctx, build, verdict, ev):
             elif kind == "switch":
                 cur = ctx.rng.randrange(len(live))
                 ops_lit.append(f"(OSwitch {cur})")
-            elif kind == "editrule":
+            elif kind == "removeblocks":  # an engine with NO rule blocks, whose outputs keep what earlier steps left
+                eng.rule_blocks = []
+                d["blocks"] = []
+                ops_lit.append("ORemoveBlocks")
+                if ctx.rng.random() < 0.5:
+                    forced = "restart"
+            elif kind == "droprules":  # a block with zero rules
                 bi = ctx.rng.randrange(len(eng.rule_blocks))
+                eng.rule_blocks[bi].rules = []
+                d["blocks"][bi]["rules"] = []
+                ops_lit.append(f"(ODropRules {bi})")
+            elif kind == "setstate":  # the state of an output variable assigned by hand
+                oi = ctx.rng.randrange(len(eng.output_variables))
+                o = d["outputs"][oi]
+                v = ctx.rng.choice([ctx.rng.uniform(o["min"], o["max"]), o["min"] - 1.5, o["max"] + 0.25, 0.0, math.inf])
+                pv = ctx.rng.choice([ctx.rng.uniform(o["min"], o["max"]), v, -2.0, math.nan])
+                ti = ctx.rng.randrange(len(o["terms"]))
+                dg = ctx.rng.choice([1.0, 0.5, ctx.rng.random(), 0.0])
+                ov = eng.output_variables[oi]
+                ov.value = v
+                ov.previous_value = pv
+                ov.fuzzy.terms.append(fl.Activated(ov.terms[ti], dg))
+                ops_lit.append(f"(OSetOutputState {oi} {vlib.fhex(v)} {vlib.fhex(pv)} {ti} {vlib.fhex(dg)})")
+                if ctx.rng.random() < 0.4:
+                    forced = "restart"
+            elif kind == "editrule":
+                bi = ctx.rng.choice([k for k, rb in enumerate(eng.rule_blocks) if rb.rules])
                 ri = ctx.rng.randrange(len(eng.rule_blocks[bi].rules))
                 en = ctx.rng.random() < 0.7
                 w = ctx.rng.choice([1.0, 0.5, 0.25, 0.0])
@@ -160,6 +216,8 @@ def run(ctx, build, verdict, ev):
                 eng.output_variables[oi].default_value = dv
                 d["outputs"][oi]["enabled"] = en
                 d["outputs"][oi]["default"] = dv
+                if not en and eng.output_variables[oi].fuzzy.terms and ctx.rng.random() < 0.7:
+                    forced = "process"  # a disabled output variable that holds activated terms of an earlier step
                 ops_lit.append(f"(OEditOutput {oi} {str(en).lower()} {vlib.fhex(dv)})")
             else:
                 bi = ctx.rng.randrange(len(eng.rule_blocks))
@@ -207,9 +265,10 @@ def run(ctx, build, verdict, ev):
     c = ev["coverage"]
     c["evaluations"] = stats["steps"]
     c["distinct_nontrivial"] = len(distinct)
-    c["rule"] = ("operation sequences of length 3-12 over {set an input, process, restart, copy and switch to the copy, switch, edit a rule's enabled/weight, an output's enabled/default, a block's enabled} on generated engines "
+    c["rule"] = ("operation sequences of length 3-12 over {set an input, process, restart, copy and switch to the copy, switch, edit a rule's enabled/weight, an output's enabled/default, a block's enabled, remove all rule blocks, drop the rules of a block, assign an output's value / previous value / one activated term by hand} on generated engines "
+                 "(7 % built without rule blocks, 5 % with a block that has no rules; a restart is forced after half of the block removals) "
                  "(all activation methods, integral and weighted defuzzifiers, Linear and Function terms referencing the engine evaluated by the formula model; 15 % get extra reference terms appended after construction and are checked on the implementation only); after every step the observables of EVERY live engine "
-                 "are compared with the model's store; non-trivial = distinct (sequence, position) of a process step in which a rule fired")
+                 "are compared with the model's store; non-trivial = distinct (sequence, position) of a process step in which a rule fired, or of a restart of an engine without rule blocks whose outputs carried state")
     c["distribution"] = stats
     c["correspondence_mismatches"] = len(mism)
     c["oracle_violations"] = nviol
@@ -218,11 +277,30 @@ def run(ctx, build, verdict, ev):
                           "restart reloads rules from their text; the model keeps the loaded trees (C06 relates text and tree)"]
 
 
-def check_after_process(ctx, verdict, fl, eng, d, has_refs, stats):
+def fuzzy_of(engine):
+    return [[(a.term.name, vlib.fkey(last(a.degree))) for a in ov.fuzzy.terms] for ov in engine.output_variables]
+
+
+def check_after_process(ctx, verdict, fl, eng, d, has_refs, stats, old_terms=None, fll0="", ops=()):
     """history-freedom and idempotence on the implementation."""
     n = 0
+    # process() clears the fuzzy output of EVERY output variable first (enabled or not), so afterwards a fuzzy output
+    # holds only Activated objects made in this step: none of the objects it held before the call (identity, the old
+    # objects are kept alive by `old_terms`), whatever lock-previous says
+    stale = []
+    if old_terms is not None:
+        stats["stale_fuzzy_checks"] += 1
+        for ov, old in zip(eng.output_variables, old_terms):
+            stats["stale_fuzzy_checks_disabled_output_with_old_terms"] += bool(old) and not ov.enabled
+            kept = [a for a in ov.fuzzy.terms if any(a is b for b in old)]
+            if kept:
+                stale.append(f"{ov.name} ({'enabled' if ov.enabled else 'disabled'}) keeps {[(a.term.name, last(a.degree)) for a in kept]}")
+    if stale:
+        verdict.add_violation("history:stale-fuzzy-output", f"after process() the fuzzy output still holds terms activated by an earlier step: {stale}",
+                              {"engine_fll": fll0, "ops": list(ops), "inputs": [last(iv.value) for iv in eng.input_variables]})
+        n += 1
     if history_sensitive(d):
-        return 0
+        return n
     got = outputs(eng, True)
     # processing twice gives the same result (on a deep copy, so the sequence is not disturbed)
     twin = eng.copy()
@@ -243,10 +321,14 @@ def check_after_process(ctx, verdict, fl, eng, d, has_refs, stats):
         if not same(outputs(fresh, True), got):
             verdict.add_violation("history:trace", f"outputs {got} differ from those of a freshly built engine {outputs(fresh, True)} for the same inputs", {"engine_fll": str(eng), "inputs": [last(iv.value) for iv in eng.input_variables]})
             n += 1
+        elif not stale and fuzzy_of(fresh) != fuzzy_of(eng):  # the fuzzy outputs of ALL output variables, enabled or not
+            verdict.add_violation("history:trace-fuzzy-output", f"fuzzy outputs {fuzzy_of(eng)} differ from those of a freshly built engine {fuzzy_of(fresh)} for the same inputs",
+                                  {"engine_fll": fll0, "ops": list(ops), "inputs": [last(iv.value) for iv in eng.input_variables]})
+            n += 1
     return n
 
 
-def check_after_restart(ctx, verdict, fl, eng, d, has_refs, stats):
+def check_after_restart(ctx, verdict, fl, eng, d, has_refs, stats, fll0="", ops=()):
     n = 0
     stats["restart_checks"] += 1
     bad = []
@@ -260,7 +342,7 @@ def check_after_restart(ctx, verdict, fl, eng, d, has_refs, stats):
             if not r.is_loaded() or last(r.activation_degree) != 0.0 or bool(np.asarray(r.triggered).any()):
                 bad.append("rule not reloaded/deactivated")
     if bad:
-        verdict.add_violation("restart:not-clean", f"after restart(): {sorted(set(bad))}", {"engine_fll": str(eng)})
+        verdict.add_violation("restart:not-clean", f"after restart() of an engine with {len(eng.rule_blocks)} rule block(s): {sorted(set(bad))}", {"engine_fll": str(eng), "initial_engine_fll": fll0, "ops": list(ops)})
         n += 1
     if not has_refs:  # behaves exactly like a freshly built engine, lock-previous included
         fresh = E.build_engine(fl, d)
